@@ -559,3 +559,74 @@ Definition repack (o : options) (t : node) : option node :=
   if options_consistent o && names_ok o t && decisions_ok o None t
   then Some (map_layout (apply_decide o) None t)
   else None.
+
+(** * The strip-mining copy loop of copy_sds (objects of H4TOOLS_MALLOCSIZE bytes or more that are not stored
+    "compressed without chunking")
+
+    [strip_size], [strip_hs_size], [strip_wrap], [strip_carry] are generated from the loop's statements.  Lists of
+    dimensions are slowest first, as in the C arrays; the loops that run from the fastest dimension work on the
+    reversed lists.  [buf] is the buffer size in bytes (H4TOOLS_BUFSIZE in the tool; a parameter here). *)
+Fixpoint sm_sizes_rev (dims_rev : list Z) (nbytes buf : Z) : list Z :=
+  match dims_rev with
+  | [] => []
+  | d :: r => let s := strip_size d buf nbytes in s :: sm_sizes_rev r (nbytes * s) buf
+  end.
+Definition sm_sizes (dims : list Z) (eltsz buf : Z) : list Z := rev (sm_sizes_rev (rev dims) eltsz buf).
+
+Fixpoint hs_sizes (dims offs sm : list Z) : list Z :=
+  match dims, offs, sm with
+  | d :: dr, o :: orr, s :: sr => strip_hs_size d o s :: hs_sizes dr orr sr
+  | _, _, _ => []
+  end.
+
+(** "calculate the next hyperslab offset": from the fastest dimension, while the carry is set *)
+Fixpoint next_offset_rev (dims offs hs : list Z) : list Z :=
+  match dims, offs, hs with
+  | d :: dr, o :: orr, h :: hr =>
+      let o' := o + h in
+      let o'' := if truth (strip_wrap o' d h) then 0 else o' in
+      if truth (strip_carry o' d h) then o'' :: next_offset_rev dr orr hr else o'' :: orr
+  | _, _, _ => offs
+  end.
+Definition next_offset (dims offs hs : list Z) : list Z := rev (next_offset_rev (rev dims) (rev offs) (rev hs)).
+
+Definition zprod (l : list Z) : Z := fold_right Z.mul 1 l.
+
+(** the loop "for (elmtno = 0; elmtno < p_nelmts; elmtno += hs_nelmts)": the list of (offset, size) blocks that
+    are read from the input and written to the output, in order.  Fuel = number of elements (every pass moves at
+    least one element when all sizes are positive); running out of fuel with elements left yields an empty block
+    list marker that no theorem accepts. *)
+Fixpoint strip_walk (fuel : nat) (dims sm offs : list Z) (elmtno nelmts : Z) : option (list (list Z * list Z)) :=
+  if elmtno <? nelmts then
+    match fuel with
+    | O => None
+    | S f =>
+        let hs := hs_sizes dims offs sm in
+        match strip_walk f dims sm (next_offset dims offs hs) (elmtno + zprod hs) nelmts with
+        | Some l => Some ((offs, hs) :: l)
+        | None => None
+        end
+    end
+  else Some [].
+
+Definition strips (dims : list Z) (eltsz buf : Z) : option (list (list Z * list Z)) :=
+  strip_walk (Z.to_nat (zprod dims)) dims (sm_sizes dims eltsz buf) (map (fun _ => 0) dims) 0 (zprod dims).
+
+(** the cells of a block in row-major order, as linear (row-major) indices of the whole array *)
+Fixpoint zcount (lo : Z) (n : nat) : list Z := match n with O => [] | S k => lo :: zcount (lo + 1) k end.
+
+Fixpoint block_cells (dims offs hs : list Z) (base : Z) : list Z :=
+  match dims, offs, hs with
+  | d :: dr, o :: orr, h :: hr => flat_map (fun k => block_cells dr orr hr (base * d + k)) (zcount o (Z.to_nat h))
+  | _, _, _ => [base]
+  end.
+
+(** the order in which the strip-mining loop moves the cells of the array *)
+Definition strip_order (dims : list Z) (eltsz buf : Z) : option (list Z) :=
+  match strips dims eltsz buf with
+  | Some l => Some (flat_map (fun b => block_cells dims (fst b) (snd b) 0) l)
+  | None => None
+  end.
+
+(** does the object go through the strip-mining loop? *)
+Definition strip_mined (bytes flags comp : Z) : bool := negb (truth (sds_one_piece bytes flags comp)).
